@@ -1,6 +1,6 @@
 (* C05 - Results depend only on the input bytes; nothing outside the input is ever read.
    Only statements, closed by `exact`, with Print Assumptions beneath each. *)
-From Coq Require Import NArith List Arith Bool.
+From Coq Require Import NArith ZArith List Arith Bool.
 From SV.Mem Require Import Mem Scan Routines.
 Import ListNotations.
 
@@ -107,3 +107,65 @@ Theorem C05_padded_copy_reads_private : forall {A} (p : prog A) (s t1 t2 : list 
   run ((s ++ padding) ++ t2) p = run ((s ++ padding) ++ t1) p.
 Proof. exact @padded_copy_reads_private. Qed.
 Print Assumptions C05_padded_copy_reads_private.
+
+(* ---- the W-blocked finders (reusing b-c10's Simd/Blocked.v and b-c20's Str/Common.v) *)
+From SV.Simd Require Import Blocked.
+From SV.Str Require Import Common.
+From SV.Mem Require Import Blocked.
+
+(* any cascade of vector rounds + scalar tail only loads inside the input, whatever the widths ... *)
+Theorem C05_cascade_reads_in_bounds : forall p ps (s t : list byte) i,
+  in_bounds (length s) (touched (s ++ t) (cascade_m p ps i (length s))).
+Proof. intros. eapply safe_reads_in_bounds. apply cascade_m_safe. Qed.
+Print Assumptions C05_cascade_reads_in_bounds.
+
+(* ... and computes b-c10's pure cascade (= the scalar specification) *)
+Theorem C05_cascade_is_pure_cascade : forall p ps, Forall (fun ph => width ph > 0) ps ->
+  forall (s t : list N) i, i <= length s ->
+  result (s ++ t) (cascade_m p ps i (length s)) = i + cascade p ps (skipn i s).
+Proof. exact cascade_m_is_cascade. Qed.
+Print Assumptions C05_cascade_is_pure_cascade.
+
+(* lspace_1, memcchr_p32, memcchr_quote_unsafe in both SIMD builds *)
+Theorem C05_blocked_finders_read_in_bounds : forall (s t : list N) avx2 i,
+  in_bounds (length s) (touched (s ++ t) (lspace_m avx2 i (length s))) /\
+  in_bounds (length s) (touched (s ++ t) (memcchr_p32_m avx2 i (length s))) /\
+  in_bounds (length s) (touched (s ++ t) (memcchr_quote_unsafe_m avx2 i (length s))).
+Proof. exact blocked_finders_read_in_bounds. Qed.
+Print Assumptions C05_blocked_finders_read_in_bounds.
+
+Theorem C05_blocked_finders_tail_independent : forall (s t1 t2 : list N) avx2 i,
+  run (s ++ t1) (lspace_m avx2 i (length s)) = run (s ++ t2) (lspace_m avx2 i (length s)) /\
+  run (s ++ t1) (memcchr_p32_m avx2 i (length s)) = run (s ++ t2) (memcchr_p32_m avx2 i (length s)) /\
+  run (s ++ t1) (memcchr_quote_unsafe_m avx2 i (length s)) = run (s ++ t2) (memcchr_quote_unsafe_m avx2 i (length s)).
+Proof. exact blocked_finders_tail_independent. Qed.
+Print Assumptions C05_blocked_finders_tail_independent.
+
+(* the copy-on-the-fly finder of quote / html_escape (rounds need nb >= W and dn >= W), any width list, any output space *)
+Theorem C05_memcchr_quote_reads_in_bounds : forall ws (s t : list N) dn,
+  in_bounds (length s) (touched (s ++ t) (memcchr_ws_m find_quote_lane single_special ws 0 (length s) 0 dn)) /\
+  in_bounds (length s) (touched (s ++ t) (memcchr_ws_m find_html_lane find_html_lane ws 0 (length s) 0 dn)).
+Proof. exact memcchr_quote_reads_in_bounds. Qed.
+Print Assumptions C05_memcchr_quote_reads_in_bounds.
+
+Theorem C05_memcchr_ws_m_agrees_sweep :
+  forallb (fun s => forallb (fun dn =>
+      Z.eqb (result s (memcchr_ws_m find_quote_lane single_special [4; 2] 0 (length s) 0 dn))
+            (memcchr_ws [4; 2] find_quote_lane single_special s 0 dn))
+    (seq 0 8)) (strs 6) = true.
+Proof. exact memcchr_ws_m_agrees_sweep. Qed.
+Print Assumptions C05_memcchr_ws_m_agrees_sweep.
+
+(* the page-guard argument: a W-byte load issued with fewer than W bytes left, only when it cannot cross a page boundary,
+   touches nothing outside the input's pages and its verdict does not depend on what it over-reads *)
+Theorem C05_guarded_tail_page_safe : forall base W i n key (m : list N),
+  0 < W <= 4096 -> 0 < length key -> i + length key <= n ->
+  page_safe base n (touched m (guarded_tail base W i key)).
+Proof. exact guarded_tail_page_safe. Qed.
+Print Assumptions C05_guarded_tail_page_safe.
+
+Theorem C05_guarded_tail_tail_independent : forall base W i key (s t1 t2 : list N),
+  length key <= W -> i + length key <= length s ->
+  result (s ++ t1) (guarded_tail base W i key) = result (s ++ t2) (guarded_tail base W i key).
+Proof. exact guarded_tail_tail_independent. Qed.
+Print Assumptions C05_guarded_tail_tail_independent.
